@@ -25,11 +25,12 @@ fn deserialize_env(s: &str) -> Result<HashMap<String, String>, String> {
 }
 
 fn serialize_env(env: &HashMap<String, String>) -> String {
-    let mut s = String::new();
-    for (key, value) in env {
-        s.push_str(&format!("{}={}\n", key, value));
-    }
-    s
+    // One variable per line, without a trailing newline: an empty last line would end
+    // the paragraph when the value is printed
+    env.iter()
+        .map(|(key, value)| format!("{}={}", key, value))
+        .collect::<Vec<_>>()
+        .join("\n")
 }
 
 fn deserialize_version(s: &str) -> Result<debversion::Version, String> {
